@@ -76,7 +76,141 @@ def main():
         emit({"name": "%s-random" % name, "exhaustive": False, "cases": n, "distinct_nontrivial": nontrivial,
               "bound": "%d seeded random groups up to 12 members x 8 topics x 12 partitions, seed %d" % (nrand, a.seed),
               "failures": fails, "replay": {"script": REPLAY % (name, 3, 3)}})
+    # ---- the sticky assignor WITH previous-assignment user data (the statement's quantifier names it)
+    pvals, m1, nn, nch = ((0, 1, 2, 3, 4, 5, 6), 3, 2, 4000) if a.tier == "quick" else ((0, 1, 2, 3, 4, 5, 6, 7, 8), 3, 3, 60000)
+    t0 = time.time()
+    n, fails = second_round_sweep(pvals, m1, nn)
+    emit({"name": "sticky-second-round-box", "exhaustive": True, "cases": n, "distinct_nontrivial": n,
+          "bound": "2 topics x partitions %r each x every first-round group of <= %d members (any non-empty subscriptions, up to "
+                   "renaming) x every subset of members staying x 0..%d new members with any subscription; round 2 carries round "
+                   "1's result as user data; validity + KIP-54 balance of round 2" % (list(pvals), m1, nn),
+          "failures": fails[:10], "failures_total": len(fails), "wall_s": round(time.time() - t0, 1),
+          "replay": {"script": REPLAY_ROUNDS}})
+    n, fails = mixed_chains_sweep(a.seed, nch)
+    emit({"name": "sticky-mixed-chains-random", "exhaustive": False, "cases": n, "distinct_nontrivial": n,
+          "bound": "%d seeded chains of up to 4 rounds (<= 7 members, 5 topics, 6 partitions; members leave / join with any "
+                   "subscription; every other chain lets members miss a round and report a stale generation), validity + KIP-54 "
+                   "balance after every round, seed %d" % (nch, a.seed),
+          "failures": fails[:10], "failures_total": len(fails), "replay": {"script": REPLAY_ROUNDS}})
 
+
+# ------------------------------------------------------------------ sticky with previous assignments
+SUBSETS2 = [("ta",), ("tb",), ("ta", "tb")]
+
+
+def _tps(lst):
+    from aiokafka.structs import TopicPartition
+    return [TopicPartition(t, p) for t, p in lst]
+
+
+def second_round_cases(pvals, m1max, newmax):
+    import itertools
+    for pc in itertools.product(pvals, repeat=2):
+        parts = dict(zip(("ta", "tb"), pc))
+        for k in range(1, m1max + 1):
+            for combo in itertools.combinations_with_replacement(SUBSETS2, k):
+                subs = {"m%d" % i: list(s) for i, s in enumerate(combo)}
+                for stay in itertools.product((True, False), repeat=k):
+                    for nn in range(0, newmax + 1):
+                        for ncombo in itertools.combinations_with_replacement(SUBSETS2, nn):
+                            subs2 = {m: subs[m] for m, s in zip(sorted(subs), stay) if s}
+                            for i, s in enumerate(ncombo):
+                                subs2["n%d" % i] = list(s)
+                            if subs2:
+                                yield parts, subs, subs2
+
+
+def _second_round_chunk(cases):
+    A = assignors()["sticky"]
+    n, fails = 0, []
+    for parts, subs, subs2 in cases:
+        n += 1
+        try:
+            r1 = run(A, parts, subs)
+            r2 = run(A, parts, subs2, previous={m: _tps(v) for m, v in r1.items()}, generation=1)
+            errs = check_valid(parts, subs2, r2) + check_balance("sticky", parts, subs2, r2)
+        except Exception as e:
+            errs = ["raised %s: %s" % (type(e).__name__, e)]
+        if errs:
+            fails.append({"assignor": "sticky", "partitions": parts, "round1": subs, "round2": subs2, "errors": errs[:3]})
+    return n, fails
+
+
+def second_round_sweep(pvals, m1max, newmax, jobs=16):
+    cases = list(second_round_cases(pvals, m1max, newmax))
+    step = max(1, len(cases) // (jobs * 4))
+    chunks = [cases[i:i + step] for i in range(0, len(cases), step)]
+    n, fails = 0, []
+    with mp.Pool(jobs) as pool:
+        for a, f in pool.imap_unordered(_second_round_chunk, chunks):
+            n += a
+            fails.extend(f)
+    return n, fails
+
+
+def _mixed_chains(args):
+    seed, n_chains, stale = args
+    from aiokafka.coordinator.protocol import ConsumerProtocolMemberMetadata
+    from bounded.assign_common import Cluster
+    rnd = random.Random(seed)
+    A = assignors()["sticky"]
+    n, fails = 0, []
+    for _ in range(n_chains):
+        parts, subs = random_case(rnd, max_members=7, max_topics=5, max_parts=6)
+        topics = sorted(parts)
+        res = run(A, parts, subs)
+        gens = {m: 1 for m in subs}
+        prev = {m: _tps(v) for m, v in res.items()}
+        for gen in range(2, 5):
+            members = sorted(subs)
+            subs2 = {m: subs[m] for m in members if not (rnd.random() < 0.25 and len(members) > 1)}
+            for i in range(rnd.choice([0, 0, 1, 2])):
+                subs2["x%d_%d" % (gen, i)] = rnd.sample(topics, rnd.randint(1, len(topics)))
+            if not subs2:
+                subs2 = {members[0]: subs[members[0]]}
+            mm = {m: (A._metadata(sorted(t), prev[m], gens[m]) if m in prev
+                      else ConsumerProtocolMemberMetadata(A.version, sorted(t), b"")) for m, t in subs2.items()}
+            n += 1
+            try:
+                out = A.assign(Cluster(parts), mm)
+                res2 = {m: [(t, p) for t, ps in x.assignment for p in ps] for m, x in out.items()}
+                errs = check_valid(parts, subs2, res2) + check_balance("sticky", parts, subs2, res2)
+            except Exception as e:
+                errs = ["raised %s: %s" % (type(e).__name__, e)]
+            if errs:
+                fails.append({"assignor": "sticky", "round": gen, "partitions": parts, "before": subs, "now": subs2,
+                              "reported": {m: (gens[m], [tuple(x) for x in prev[m]]) for m in subs2 if m in prev}, "errors": errs[:3]})
+                break
+            for m in subs2:
+                if stale and m in prev and rnd.random() < 0.2:
+                    continue                      # missed the sync: keeps reporting the older assignment and generation
+                prev[m], gens[m] = _tps(res2[m]), gen
+            for m in list(prev):
+                if m not in subs2:
+                    del prev[m]
+            subs = subs2
+    return n, fails
+
+
+def mixed_chains_sweep(seed, n_chains, jobs=16):
+    per = max(1, n_chains // jobs)
+    n, fails = 0, []
+    with mp.Pool(jobs) as pool:
+        for a, f in pool.imap_unordered(_mixed_chains, [(seed * 1000 + j, per, bool(j % 2)) for j in range(jobs)]):
+            n += a
+            fails.extend(f)
+    return n, fails
+
+
+REPLAY_ROUNDS = '''
+import sys
+sys.path.insert(0, "/verif")
+from bounded import C14
+n, fails = C14.second_round_sweep((0, 1, 2, 3, 4, 5, 6), 3, 2, jobs=8)
+n2, fails2 = C14.mixed_chains_sweep(0, 4000, jobs=8)
+VIOLATED = bool(fails or fails2)
+DETAIL = "sticky assignor with previous assignments: %d + %d cases, %d + %d fail; first: %r" % (n, n2, len(fails), len(fails2), (fails + fails2)[:1])
+'''
 
 REPLAY = '''
 import sys
